@@ -280,13 +280,7 @@ func positiveHalf(c *core.Ctx, t *gen.Node, m gen.Built, st stage) {
 		if !l.Barrier && !l.Secondary {
 			continue
 		}
-		hn := l.Node.Hidden
-		var hnode *gen.Node
-		if len(hn) > 0 {
-			hnode = hn[0]
-		} else if l.Node.Kind == "newfw" {
-			hnode = l.Node.Kids[0] // the %w argument is also recorded as secondary error
-		}
+		hnode := l.Hides
 		if hnode == nil {
 			continue
 		}
